@@ -543,7 +543,7 @@ func Check(id, tier string, seed uint64, repo, vd string) (*gensim.Outcome, erro
 		if r.Rejected {
 			rejected++
 			if len(rejectSamples) < 3 {
-				rejectSamples = append(rejectSamples, firstLines(r.RejectMsg, 8))
+				rejectSamples = append(rejectSamples, firstLines(r.RejectMsg, 40))
 			}
 			continue
 		}
